@@ -9,6 +9,9 @@ from vlib import hexf, close
 HERE = os.path.dirname(os.path.abspath(__file__))
 sys.path.insert(0, HERE)
 import c04lib as L  # noqa: E402
+import c04acc as A  # noqa: E402
+import bremlib  # noqa: E402
+import chipslib  # noqa: E402
 
 
 def run(ctx):
@@ -24,6 +27,8 @@ def run(ctx):
         "incident direction is a unit vector; incident energy inside the model's applicability interval",
         "Tier-B models (SB/relativistic/combined/muon brems, Livermore PE, Coulomb): only the property oracle on the implementation, no Coq model of the energy/angle samplers",
     ]
+    # translator: Rayleigh parameter table of the tree under test -> coq/C04/RayleighTable.v (C04_rayleigh_table_ok)
+    A.regen_rayleigh_table(ctx)
     proofs_ok = ctx.coq_prove("Properties_C04.v")
     ok, log = ctx.coq_build(["C04/Run.vo"])
     if not ok:
@@ -34,6 +39,7 @@ def run(ctx):
     exe = ctx.compile_harness([os.path.join(HERE, "harness", "interactors.cc")], "interactors",
                               libs=L.LIBS, test_includes=True)
     L.load_element_data(ctx, exe)
+    A.check_rayleigh_hypothesis(ctx)
     n = 0.6 if quick else 12.0
     cases = L.gen_cases(ctx, n)
     ctx.log("cases: %d" % len(cases))
@@ -41,6 +47,13 @@ def run(ctx):
     model = L.run_model(ctx, cases, impl)
     L.compare_all(ctx, exe, cases, impl, model)
     L.replay_witnesses(ctx, exe)
+    A.replay_acceptance_witnesses(ctx, exe)
+    okb, logb = ctx.coq_build(["C04/RunBrem.vo"])
+    if okb:
+        bremlib.run_brem_energy(ctx, exe, quick)
+    else:
+        ctx.violation("model-broken", "C04/RunBrem.v no longer compiles", {"log": logb[-2000:]}, no_input=True)
+    chipslib.run_chips(ctx, quick)
     if not proofs_ok:
         ctx.violation("proof-broken", "Properties_C04.v no longer checks", ctx.broken_proof, no_input=True)
     ctx.coverage["rule"] = (
